@@ -169,7 +169,7 @@ def body(case):
             text = conv10.emit_yaml(doc, case.get("native", False))
         exp, drops = conv10.expected(doc, dict_form=(fmt != "XML"))
         src_path = os.path.join(d, "source." + fmt.lower())
-        with open(src_path, "w") as fh:
+        with open(src_path, "w", encoding="utf-8") as fh:
             fh.write(text)
         with open(src_path, "rb") as fh:
             src_bytes = fh.read()
@@ -283,12 +283,14 @@ def _nt(doc, drops):
 
 def plan(tier):
     if tier == "quick":
-        return [{"name": "conv%d" % i, "n": 150, "depth": 2} for i in range(16)]
-    return [{"name": "conv%d" % i, "n": 2500, "depth": 3} for i in range(16)]
+        return [{"name": "conv%d" % i, "n": 150, "depth": 2} for i in range(16)] + \
+            [{"name": "conv_ascii_locale", "n": 100, "depth": 2, "env": "ascii_locale"}]
+    return [{"name": "conv%d" % i, "n": 2500, "depth": 3} for i in range(16)] + \
+        [{"name": "conv_ascii_locale%d" % i, "n": 1000, "depth": 3, "env": "ascii_locale"} for i in range(2)]
 
 
 def run(shard, seed, ctx):
-    hyp.drive(ctx, "convert", cases(shard["depth"]), body, shard["n"], seed)
+    hyp.drive(ctx, "convert", hyp.in_env(cases(shard["depth"]), shard), body, shard["n"], seed)
 
 
 def replay(kind, case):
